@@ -46,6 +46,16 @@ def items(seed=0):
     c1c[19] ^= 0x80
     it = collections.OrderedDict()
     it["P1"], it["P2"], it["P3"], it["P4"] = p1, p2, p3, p4
+    # a short frame (3 data bytes, ISO Request): the 5 padding bytes and the reserved byte are covered by the checksum too
+    s1 = wire.usb_packet(wire.can_id(6, 59904, 7, 255), bytes.fromhex("00ee00"))
+    assert MARK not in s1[2:] and not s1.endswith(b"\xaa")
+    it["S1"] = s1
+    cpad = bytearray(s1)
+    cpad[15] ^= 0x20            # corruption inside the padding of the short frame
+    it["CSp"] = bytes(cpad)
+    cres = bytearray(p2)
+    cres[18] ^= 0x04            # corruption of the reserved byte
+    it["CSr"] = bytes(cres)
     it["C1d"], it["C1c"] = bytes(c1d), bytes(c1c)
     it["T1"], it["T7"], it["T19"] = p1[:19], p1[:13], p1[:1]
     it["M7"] = p1[:8] + p1[15:]
@@ -62,7 +72,7 @@ def items(seed=0):
     return it
 
 
-VALID = ("P1", "P2", "P3", "P4")
+VALID = ("P1", "P2", "P3", "P4", "S1")
 
 
 def pending_bytes(client):
@@ -146,6 +156,10 @@ def judge(seq, its, sess, o, plan):
     if mx > PENDING_BOUND:
         out.append(("buffer_unbounded", {"pending": mx}, f"client holds back {mx} bytes after a read (bound {PENDING_BOUND})"))
     return out
+
+
+def view_of(dec, pkt):
+    return common.msg_view(dec.decode_usb(pkt))
 
 
 def make_plan(seq, its):
